@@ -51,19 +51,27 @@ func SwapUint64(addr *uint64, v uint64) uint64 {
 }
 func CompareAndSwapInt32(addr *int32, old, new int32) bool {
 	core.Point("atomic", addr)
-	return stdatomic.CompareAndSwapInt32(addr, old, new)
+	r := stdatomic.CompareAndSwapInt32(addr, old, new)
+	core.Point("atomic-post", addr)
+	return r
 }
 func CompareAndSwapInt64(addr *int64, old, new int64) bool {
 	core.Point("atomic", addr)
-	return stdatomic.CompareAndSwapInt64(addr, old, new)
+	r := stdatomic.CompareAndSwapInt64(addr, old, new)
+	core.Point("atomic-post", addr)
+	return r
 }
 func CompareAndSwapUint32(addr *uint32, old, new uint32) bool {
 	core.Point("atomic", addr)
-	return stdatomic.CompareAndSwapUint32(addr, old, new)
+	r := stdatomic.CompareAndSwapUint32(addr, old, new)
+	core.Point("atomic-post", addr)
+	return r
 }
 func CompareAndSwapUint64(addr *uint64, old, new uint64) bool {
 	core.Point("atomic", addr)
-	return stdatomic.CompareAndSwapUint64(addr, old, new)
+	r := stdatomic.CompareAndSwapUint64(addr, old, new)
+	core.Point("atomic-post", addr)
+	return r
 }
 func LoadPointer(addr *unsafe.Pointer) unsafe.Pointer {
 	core.Point("atomic", addr)
@@ -82,7 +90,9 @@ func (x *Int32) Add(d int32) int32  { core.Point("atomic", x); return x.v.Add(d)
 func (x *Int32) Swap(v int32) int32 { core.Point("atomic", x); return x.v.Swap(v) }
 func (x *Int32) CompareAndSwap(o, n int32) bool {
 	core.Point("atomic", x)
-	return x.v.CompareAndSwap(o, n)
+	r := x.v.CompareAndSwap(o, n)
+	core.Point("atomic-post", x) // the guard is taken; what it guards may be invisible to the scheduler
+	return r
 }
 
 type Int64 struct{ v stdatomic.Int64 }
@@ -93,7 +103,9 @@ func (x *Int64) Add(d int64) int64  { core.Point("atomic", x); return x.v.Add(d)
 func (x *Int64) Swap(v int64) int64 { core.Point("atomic", x); return x.v.Swap(v) }
 func (x *Int64) CompareAndSwap(o, n int64) bool {
 	core.Point("atomic", x)
-	return x.v.CompareAndSwap(o, n)
+	r := x.v.CompareAndSwap(o, n)
+	core.Point("atomic-post", x) // the guard is taken; what it guards may be invisible to the scheduler
+	return r
 }
 
 type Uint32 struct{ v stdatomic.Uint32 }
@@ -104,7 +116,9 @@ func (x *Uint32) Add(d uint32) uint32  { core.Point("atomic", x); return x.v.Add
 func (x *Uint32) Swap(v uint32) uint32 { core.Point("atomic", x); return x.v.Swap(v) }
 func (x *Uint32) CompareAndSwap(o, n uint32) bool {
 	core.Point("atomic", x)
-	return x.v.CompareAndSwap(o, n)
+	r := x.v.CompareAndSwap(o, n)
+	core.Point("atomic-post", x) // the guard is taken; what it guards may be invisible to the scheduler
+	return r
 }
 
 type Uint64 struct{ v stdatomic.Uint64 }
@@ -115,7 +129,9 @@ func (x *Uint64) Add(d uint64) uint64  { core.Point("atomic", x); return x.v.Add
 func (x *Uint64) Swap(v uint64) uint64 { core.Point("atomic", x); return x.v.Swap(v) }
 func (x *Uint64) CompareAndSwap(o, n uint64) bool {
 	core.Point("atomic", x)
-	return x.v.CompareAndSwap(o, n)
+	r := x.v.CompareAndSwap(o, n)
+	core.Point("atomic-post", x) // the guard is taken; what it guards may be invisible to the scheduler
+	return r
 }
 
 type Bool struct{ v stdatomic.Bool }
@@ -125,7 +141,9 @@ func (x *Bool) Store(v bool)     { core.Point("atomic", x); x.v.Store(v) }
 func (x *Bool) Swap(v bool) bool { core.Point("atomic", x); return x.v.Swap(v) }
 func (x *Bool) CompareAndSwap(o, n bool) bool {
 	core.Point("atomic", x)
-	return x.v.CompareAndSwap(o, n)
+	r := x.v.CompareAndSwap(o, n)
+	core.Point("atomic-post", x) // the guard is taken; what it guards may be invisible to the scheduler
+	return r
 }
 
 type Value struct{ v stdatomic.Value }
@@ -135,7 +153,9 @@ func (x *Value) Store(v any)    { core.Point("atomic", x); x.v.Store(v) }
 func (x *Value) Swap(v any) any { core.Point("atomic", x); return x.v.Swap(v) }
 func (x *Value) CompareAndSwap(o, n any) bool {
 	core.Point("atomic", x)
-	return x.v.CompareAndSwap(o, n)
+	r := x.v.CompareAndSwap(o, n)
+	core.Point("atomic-post", x) // the guard is taken; what it guards may be invisible to the scheduler
+	return r
 }
 
 type Pointer[T any] struct{ v stdatomic.Pointer[T] }
